@@ -131,6 +131,7 @@ Proof.
               (hier_cbb _ _ _ _ _ _ _ _ _ _ _ Hfa) (hier_cbb _ _ _ _ _ _ _ _ _ _ _ Hfa) Hbs Hbl Htn Htln Hok)
     as (Nb & Nt & Hw & Hrest).
   destruct (skip_common_split bsegs tsegs) as (common & ra & rb & Eb & Et & Es).
+  rewrite hier_b_scheme in Hw by exact Hfa. fold st in Hw. rewrite Hnf, Es in Hw. cbn [fst] in Hw.
   destruct (Hrest ra rb Es) as (F1 & F2 & F3). clear Hrest.
   assert (forallb nonempty ra = true) as Nra by (rewrite Eb in Nb; exact (forallb_app_r _ _ _ Nb)).
   assert (forallb nonempty rb = true) as Nrb by (rewrite Et in Nt; exact (forallb_app_r _ _ _ Nt)).
@@ -160,7 +161,7 @@ Proof.
     destruct (rp_head st ra rb tlast Nrb Hrb Htl) as (c & rp' & Erp & Hc & Hcbs); [tauto|].
     assert (forallb not_wdl_seg ra = true) as Hwra.
     { apply forallb_forall. intros x Hx. unfold not_wdl_seg. rewrite wdl_snoc. apply negb_true_iff.
-      apply (existsb_false_forall _ _ Hw). apply in_or_app. left. right. rewrite Eb. apply in_or_app. right. exact Hx. }
+      apply (existsb_false_forall _ _ Hw). exact Hx. }
     assert (has_scheme_b ((dots_text ra ++ segs_text rb ++ tlast) ++ qf_text tq tf) = false) as Hsch.
     { destruct ra as [|a ra'].
       - specialize (F2 eq_refl). destruct rb as [|s rb'].
